@@ -592,6 +592,15 @@ worker_thread_proc(void)
     verif_trace_event("W", "wait");
 #endif
     xwait(&sched_cond, &sched_mutex);
+#ifdef KJN_LBZIP2_VERIF
+    if (verif_delay_script != NULL) {
+      /* A worker that is slow to wake up.  Legal: the loop re-reads next_task
+         after the mutex has been taken again. */
+      xunlock(&sched_mutex);
+      verif_delay("wake", 0, 0);
+      xlock(&sched_mutex);
+    }
+#endif
   }
 
 #ifdef KJN_LBZIP2_VERIF
